@@ -485,7 +485,30 @@ def install(E):
             if c is not None:
                 return [(P, Str([str(c)]))]
             return [(P, Str([("fmt", "str", x)]))]
+        if isinstance(x, Handle) and x.kind == "obj" and x.cls:
+            # default object repr ("<module.Class object at 0x..>") when the class defines neither __str__ nor __repr__ (A-LIB)
+            for m in ("__str__", "__repr__"):
+                try:
+                    E.repo.method(x.cls[0], x.cls[1], m)
+                    raise Unsupported("str() of an object with its own %s" % m)
+                except KeyError:
+                    pass
+            return [(P, Str([("sym", "objrepr!%d" % x.id, ())]))]
         raise Unsupported("str(%r)" % (x,))
+
+    @reg("method.isnumeric")
+    def _isnumeric(E, P, ctx, s):
+        if isinstance(s, Str):
+            c = s.concrete()
+            if c is not None:
+                return [(P, B(c.isnumeric()))]
+            if len(s.parts) == 1 and isinstance(s.parts[0], tuple):
+                p0 = s.parts[0]
+                if p0[0] == "sym" and str(p0[1]).startswith("objrepr!"):
+                    return [(P, B(False))]                 # "<... object at 0x...>" is not numeric
+                if p0[0] == "fmt" and p0[1] == "str" and isinstance(p0[2], Num) and p0[2].isint:
+                    return [(P, Bool(p0[2].t >= 0))]       # str(int) is all digits iff the int is not negative
+        raise Unsupported("isnumeric on %r" % (s,))
 
     @reg("chr", True)
     def _chr(E, P, ctx, x):
